@@ -296,11 +296,19 @@ where
                     active.remove(*i);
                 }
 
+                #[cfg(feature = "verif")]
+                crate::verif::proto_emit(crate::verif::Proto::ReporterIter {
+                    n_chains: most_recent.len(),
+                    n_finished,
+                });
+
                 if n_finished >= most_recent.len() {
                     break;
                 }
                 std::thread::sleep(sleep_ms);
             }
+            #[cfg(feature = "verif")]
+            crate::verif::proto_emit(crate::verif::Proto::ReporterExit);
         });
 
         let chain_sample: Vec<Tensor<B, 2>> = thread::scope(|s| {
@@ -470,6 +478,36 @@ where
         sample
     }
 
+    #[cfg(feature = "verif")]
+    /// Verification hook: `(m, epsilon, epsilon_bar, h_bar, mu, n_discard)`.
+    pub fn verif_adapt_state(&self) -> (usize, T, T, T, T, usize) {
+        (
+            self.m,
+            self.epsilon,
+            self.epsilon_bar,
+            self.h_bar,
+            self.mu,
+            self.n_discard,
+        )
+    }
+
+    #[cfg(feature = "verif")]
+    /// Verification hook: forces the current step size.
+    pub fn verif_set_epsilon(&mut self, epsilon: T) {
+        self.epsilon = epsilon;
+    }
+
+    #[cfg(feature = "verif")]
+    /// Verification hook: public wrapper of the private per-chain progress runner.
+    pub fn verif_run_progress(
+        &mut self,
+        n_collect: usize,
+        n_discard: usize,
+        tx: Sender<ChainStats>,
+    ) -> Result<Tensor<B, 2>, Box<dyn Error>> {
+        self.run_progress(n_collect, n_discard, tx)
+    }
+
     fn run_progress(
         &mut self,
         n_collect: usize,
@@ -511,6 +549,11 @@ where
                     eprintln!("Sending chain statistics failed: {e}");
                 }
                 last = now;
+                #[cfg(feature = "verif")]
+                crate::verif::proto_emit(crate::verif::Proto::Sent {
+                    n: tracker.stats().n,
+                    last: i == total - 1,
+                });
             }
 
             if i >= n_discard {
@@ -520,6 +563,9 @@ where
                 );
             }
         }
+
+        #[cfg(feature = "verif")]
+        crate::verif::proto_emit(crate::verif::Proto::WorkerDone);
 
         // TODO: Somehow save state of the chains and enable continuing runs
         Ok(sample)
@@ -562,6 +608,16 @@ where
             T::from_f64(joint.into_scalar().to_f64()).expect("successful conversion from 64 to T");
         let exp1_obs = self.rng.sample(Exp1);
         let logu = joint - exp1_obs;
+        #[cfg(feature = "verif")]
+        crate::verif::emit(|| crate::verif::Event::NutsBegin {
+            m: self.m,
+            position: self.position.to_data().iter::<f64>().collect(),
+            momentum: mom_0.to_data().iter::<f64>().collect(),
+            epsilon: num_traits::ToPrimitive::to_f64(&self.epsilon).unwrap(),
+            joint: num_traits::ToPrimitive::to_f64(&joint).unwrap(),
+            exp1: num_traits::ToPrimitive::to_f64(&exp1_obs).unwrap(),
+            logu: num_traits::ToPrimitive::to_f64(&logu).unwrap(),
+        });
 
         let mut position_minus = self.position.clone();
         let mut position_plus = self.position.clone();
@@ -578,6 +634,12 @@ where
         while s {
             let u_run_1: T = self.rng.random::<T>();
             let v = (2 * (u_run_1 < T::from(0.5).unwrap()) as i8) - 1;
+            #[cfg(feature = "verif")]
+            crate::verif::emit(|| crate::verif::Event::NutsDir {
+                u: num_traits::ToPrimitive::to_f64(&u_run_1).unwrap(),
+                v,
+                depth: j,
+            });
 
             let (position_prime, n_prime, s_prime) = {
                 if v == -1 {
@@ -658,6 +720,14 @@ where
                     / T::from(n).expect("successful conversion of n from usize to T"),
             );
             let u_run_2 = self.rng.random::<T>();
+            #[cfg(feature = "verif")]
+            crate::verif::emit(|| crate::verif::Event::NutsAcceptU {
+                u: num_traits::ToPrimitive::to_f64(&u_run_2).unwrap(),
+                n_prime,
+                n,
+                s_prime,
+                proposal: position_prime.to_data().iter::<f64>().collect(),
+            });
             if s_prime && (u_run_2 < tmp) {
                 self.position = position_prime;
             }
@@ -672,6 +742,15 @@ where
                 );
             j += 1
         }
+
+        #[cfg(feature = "verif")]
+        crate::verif::emit(|| crate::verif::Event::NutsEnd {
+            depth: j,
+            n,
+            alpha: num_traits::ToPrimitive::to_f64(&alpha).unwrap(),
+            n_alpha,
+            position: self.position.to_data().iter::<f64>().collect(),
+        });
 
         let mut eta =
             T::one() / T::from(self.m + self.t_0).expect("successful conversion of m + t_0 to T");
@@ -689,6 +768,120 @@ where
             self.epsilon = self.epsilon_bar;
         }
     }
+}
+
+#[cfg(feature = "verif")]
+/// Verification hook: public wrapper of the private `find_reasonable_epsilon`.
+pub fn verif_find_reasonable_epsilon<B, T, GTarget>(
+    position: Tensor<B, 1>,
+    mom: Tensor<B, 1>,
+    gradient_target: &GTarget,
+) -> T
+where
+    T: Float + Element,
+    B: AutodiffBackend,
+    GTarget: GradientTarget<T, B> + Sync,
+{
+    find_reasonable_epsilon(position, mom, gradient_target)
+}
+
+#[cfg(feature = "verif")]
+/// Result of [`verif_build_tree`], named fields instead of the private 13-tuple.
+#[derive(Debug, Clone)]
+pub struct VerifTree<B: AutodiffBackend, T> {
+    pub position_minus: Tensor<B, 1>,
+    pub mom_minus: Tensor<B, 1>,
+    pub grad_minus: Tensor<B, 1>,
+    pub position_plus: Tensor<B, 1>,
+    pub mom_plus: Tensor<B, 1>,
+    pub grad_plus: Tensor<B, 1>,
+    pub position_prime: Tensor<B, 1>,
+    pub grad_prime: Tensor<B, 1>,
+    pub logp_prime: Tensor<B, 1>,
+    pub n_prime: usize,
+    pub s_prime: bool,
+    pub alpha_prime: T,
+    pub n_alpha_prime: usize,
+}
+
+#[cfg(feature = "verif")]
+#[allow(clippy::too_many_arguments)]
+/// Verification hook: public wrapper of the private `build_tree`.
+pub fn verif_build_tree<B, T, GTarget>(
+    position: Tensor<B, 1>,
+    mom: Tensor<B, 1>,
+    grad: Tensor<B, 1>,
+    logu: T,
+    v: i8,
+    j: usize,
+    epsilon: T,
+    gradient_target: &GTarget,
+    joint_0: T,
+    rng: &mut SmallRng,
+) -> VerifTree<B, T>
+where
+    T: Float + Element,
+    B: AutodiffBackend,
+    GTarget: GradientTarget<T, B> + Sync,
+{
+    let r = build_tree(
+        position,
+        mom,
+        grad,
+        logu,
+        v,
+        j,
+        epsilon,
+        gradient_target,
+        joint_0,
+        rng,
+    );
+    VerifTree {
+        position_minus: r.0,
+        mom_minus: r.1,
+        grad_minus: r.2,
+        position_plus: r.3,
+        mom_plus: r.4,
+        grad_plus: r.5,
+        position_prime: r.6,
+        grad_prime: r.7,
+        logp_prime: r.8,
+        n_prime: r.9,
+        s_prime: r.10,
+        alpha_prime: r.11,
+        n_alpha_prime: r.12,
+    }
+}
+
+#[cfg(feature = "verif")]
+/// Verification hook: public wrapper of the private `stop_criterion`.
+pub fn verif_stop_criterion<B>(
+    position_minus: Tensor<B, 1>,
+    position_plus: Tensor<B, 1>,
+    mom_minus: Tensor<B, 1>,
+    mom_plus: Tensor<B, 1>,
+) -> bool
+where
+    B: AutodiffBackend,
+{
+    stop_criterion(position_minus, position_plus, mom_minus, mom_plus)
+}
+
+#[cfg(feature = "verif")]
+/// Verification hook: public wrapper of the private `leapfrog`.
+pub fn verif_leapfrog<B, T, GTarget>(
+    position: Tensor<B, 1>,
+    mom: Tensor<B, 1>,
+    grad: Tensor<B, 1>,
+    epsilon: T,
+    gradient_target: &GTarget,
+) -> (Tensor<B, 1>, Tensor<B, 1>, Tensor<B, 1>, Tensor<B, 1>)
+where
+    T: Float + ElementConversion,
+    B: AutodiffBackend,
+    GTarget: GradientTarget<T, B>,
+{
+    leapfrog(position, mom, grad, epsilon, gradient_target)
 }
 
 #[allow(dead_code)]
@@ -805,6 +998,13 @@ where
             .expect("type conversion from joint tensor to scalar type T to succeed");
         let n_prime = (logu < joint) as usize;
         let s_prime = (logu - T::from(1000.0).unwrap()) < joint;
+        #[cfg(feature = "verif")]
+        crate::verif::emit(|| crate::verif::Event::NutsLeaf {
+            position: position_prime.to_data().iter::<f64>().collect(),
+            joint: num_traits::ToPrimitive::to_f64(&joint).unwrap(),
+            n: n_prime,
+            s: s_prime,
+        });
         let position_minus = position_prime.clone();
         let position_plus = position_prime.clone();
         let mom_minus = mom_prime.clone();
@@ -908,6 +1108,12 @@ where
             }
 
             let u_build_tree: f64 = (*rng).random::<f64>();
+            #[cfg(feature = "verif")]
+            crate::verif::emit(|| crate::verif::Event::NutsMergeU {
+                u: u_build_tree,
+                n_first: n_prime,
+                n_second: n_prime_2,
+            });
             if u_build_tree < (n_prime_2 as f64 / (n_prime + n_prime_2).max(1) as f64) {
                 position_prime = position_prime_2;
                 grad_prime = grad_prime_2;
